@@ -231,7 +231,7 @@ def _run_one(target: str, fn: Callable[[str], Any], s: str, alarm: bool, seconds
             if ec == "syntax" and target == "marker" and _grammar_accepts(s):
                 # lark's error although the grammar accepts the INPUT: it comes from a marker text the simplifier printed and
                 # re-parsed (the defect class of repo fix 3046ca3)
-                return {"cls": "other", "etype": "internal-reparse", "site": site_of(e), "stage": stage, "msg": str(e)[:80].replace("\n", " ")}
+                return {"cls": "other", "etype": "internal-reparse", "site": _literal_cause(s), "stage": stage, "msg": str(e)[:80].replace("\n", " ")}
             return {"cls": "doc", "err": ec}
         site = site_of(e)
         if isinstance(e, OSError) and e.errno is not None:
@@ -239,6 +239,15 @@ def _run_one(target: str, fn: Callable[[str], Any], s: str, alarm: bool, seconds
             import errno as _errno
             site = _errno.errorcode.get(e.errno, str(e.errno))
         return {"cls": "other", "etype": type(e).__name__, "site": site, "stage": stage, "msg": str(e)[:120]}
+
+
+def _literal_cause(s: str) -> str:
+    """which kind of string literal of the input makes a printed marker text unreadable (class key of the two oracles below)"""
+    if re.search(r"""(["'])\1""", s):
+        return "empty-literal"        # `name op ""`: operator and value are glued and split again by a regex
+    if "\\" in s:
+        return "backslash"            # a value ending in a backslash / holding \" and ' is printed between the wrong quotes
+    return "other"
 
 
 def _grammar_accepts(s: str) -> bool:
@@ -252,7 +261,7 @@ def _grammar_accepts(s: str) -> bool:
 
 def violation_of(target: str, s: str, label: str, o: dict[str, Any]) -> tuple[str, str, dict[str, Any]] | None:
     if o["cls"] == "ok" and target == "marker" and o.get("reprint_rejected"):
-        return (f"marker:reprint-rejected:{o['reprint_rejected']}",
+        return (f"marker:reprint-rejected:{_literal_cause(s)}",
                 f"parse_marker({_short(s)}) returns a marker whose printed text {_short(o['text'])} parse_marker rejects "
                 f"({o['reprint_rejected']}): the value cannot be printed", {"parser": target, "s": s, "label": label})
     if o["cls"] == "other":
